@@ -680,21 +680,24 @@ type shardArgs struct {
 
 func (mon) Plan(prop, tier string, seed int64) []drv.Shard {
 	var out []drv.Shard
-	trials, raceTrials := 60, 10
+	trials, raceTrials, switchMul, switchRaceMul, secs := 60, 10, 50, 20, 0
 	if tier == "thorough" {
-		trials, raceTrials = 10000, 1000
+		// sized so that every shard ends within a few minutes on an idle machine; the watchdog is
+		// generous because 15 shards with up to 16 runnable goroutines each share the cores
+		trials, raceTrials, switchMul, switchRaceMul, secs = 3000, 200, 20, 25, 3600
 	}
 	for i, gmp := range []string{"2", "4", "16"} {
+		env := []string{"GOMAXPROCS=" + gmp}
 		a, _ := json.Marshal(shardArgs{Trials: trials, Part: i})
-		out = append(out, drv.Shard{Name: "plain-gomaxprocs" + gmp, Args: a, Env: []string{"GOMAXPROCS=" + gmp}})
+		out = append(out, drv.Shard{Name: "plain-gomaxprocs" + gmp, Args: a, Env: env, Secs: secs})
 		a, _ = json.Marshal(shardArgs{Trials: raceTrials, Part: 10 + i})
-		out = append(out, drv.Shard{Name: "race-gomaxprocs" + gmp, Args: a, Env: []string{"GOMAXPROCS=" + gmp}, Race: true})
-		a, _ = json.Marshal(shardArgs{Trials: trials * 50, Part: 20 + i, Switch: true})
-		out = append(out, drv.Shard{Name: "switch-gomaxprocs" + gmp, Args: a, Env: []string{"GOMAXPROCS=" + gmp}})
-		a, _ = json.Marshal(shardArgs{Trials: raceTrials * 20, Part: 30 + i, Switch: true})
-		out = append(out, drv.Shard{Name: "switch-race-gomaxprocs" + gmp, Args: a, Env: []string{"GOMAXPROCS=" + gmp}, Race: true})
+		out = append(out, drv.Shard{Name: "race-gomaxprocs" + gmp, Args: a, Env: env, Race: true, Secs: secs})
+		a, _ = json.Marshal(shardArgs{Trials: trials * switchMul, Part: 20 + i, Switch: true})
+		out = append(out, drv.Shard{Name: "switch-gomaxprocs" + gmp, Args: a, Env: env, Secs: secs})
+		a, _ = json.Marshal(shardArgs{Trials: raceTrials * switchRaceMul, Part: 30 + i, Switch: true})
+		out = append(out, drv.Shard{Name: "switch-race-gomaxprocs" + gmp, Args: a, Env: env, Race: true, Secs: secs})
 		a, _ = json.Marshal(shardArgs{Trials: trials / 3, Part: 40 + i, Toggle: true})
-		out = append(out, drv.Shard{Name: "toggle-gomaxprocs" + gmp, Args: a, Env: []string{"GOMAXPROCS=" + gmp}})
+		out = append(out, drv.Shard{Name: "toggle-gomaxprocs" + gmp, Args: a, Env: env, Secs: secs})
 	}
 	return out
 }
